@@ -64,6 +64,7 @@ func (st *State) doCall(instr *ssa.Call, c *ssa.CallCommon, fnv Value, args []Va
 		recv := fnv
 		key := ifaceMethodKey(c)
 		st.check("nil", st.textAt(pos, "invoke "+c.Method.Name()), pos, Ne(IfType(recv.Tm), IntLit(0)))
+		st.beforeAsserts(key, append([]Value{recv}, args...), pos)
 		if spec := e.specs.Funcs[key]; spec != nil {
 			spec.Used = true
 			e.trusted[key+" (interface contract)"] = true
@@ -106,6 +107,7 @@ func (st *State) doCall(instr *ssa.Call, c *ssa.CallCommon, fnv Value, args []Va
 			st.check("nil", st.textAt(pos, "call of func value"), pos, Ne(fnv.Tm, IntLit(0)))
 		}
 		st.countCall(key, fnv, c)
+		st.beforeAsserts(key, args, pos)
 		if spec := e.specs.Funcs[key]; spec != nil {
 			spec.Used = true
 			e.trusted[key+" (fnspec)"] = true
@@ -131,36 +133,7 @@ func (st *State) doCall(instr *ssa.Call, c *ssa.CallCommon, fnv Value, args []Va
 		}
 		return st.finishCall(instr, r, deferred)
 	}
-	// caller-side assertions attached to calls of this callee ("before <callee>: assert e"), top-level frame only
-	// (also inside an inlined helper that has no contract of its own: the call was moved there; names resolve in the helper)
-	if fr := st.frame; st.u.spec != nil && st.u.spec.Before != nil && (fr.parent == nil || fr.spec == nil) {
-		if cs := st.u.spec.Before[key]; len(cs) > 0 {
-			if st.u.beforeHit == nil {
-				st.u.beforeHit = map[string]bool{}
-			}
-			st.u.beforeHit[key] = true
-			for _, bc := range cs {
-				env := st.newEnv(fr, nil)
-				for ai := range args {
-					env.vars[fmt.Sprintf("arg%d", ai)] = args[ai] // the call's arguments (receiver first)
-				}
-				// inside a loop with step clauses, prev(e) is the value at the start of the current round of the
-				// innermost such loop around the call
-				best := 0
-				for hdr, li := range e.loopsOf(fr.fn) {
-					if le := fr.loopsSeen[hdr]; le != nil && le.head != nil && li.body[fr.block] && (best == 0 || len(li.body) < best) {
-						best = len(li.body)
-						env.prev = le.head
-						env.lentry = le.entry
-					}
-				}
-				t := env.evalBool(bc.E)
-				st.assumeAll(env.defs)
-				st.u.addObl(st, "assert", "before "+key+"/"+clauseName(bc), pos, t, false)
-				st.assume(t)
-			}
-		}
-	}
+	st.beforeAsserts(key, args, pos)
 	spec := e.specs.Funcs[key]
 	// a contract specific to the struct field the receiver was loaded from
 	if len(args) > 0 && args[0].Origin != "" && callee.Signature.Recv() != nil {
@@ -231,6 +204,41 @@ func (st *State) doCall(instr *ssa.Call, c *ssa.CallCommon, fnv Value, args []Va
 	// external without contract
 	r := st.unmodelled(key, sig, args, resT)
 	return st.finishCall(instr, r, deferred)
+}
+
+// beforeAsserts proves the caller-side assertions attached to calls of `key` (static callee, interface method or func type)
+func (st *State) beforeAsserts(key string, args []Value, pos token.Pos) {
+	// caller-side assertions attached to calls of this callee ("before <callee>: assert e"), top-level frame only
+	// (also inside an inlined helper that has no contract of its own: the call was moved there; names resolve in the helper)
+	e := st.eng()
+	if fr := st.frame; st.u.spec != nil && st.u.spec.Before != nil && (fr.parent == nil || fr.spec == nil) {
+		if cs := st.u.spec.Before[key]; len(cs) > 0 {
+			if st.u.beforeHit == nil {
+				st.u.beforeHit = map[string]bool{}
+			}
+			st.u.beforeHit[key] = true
+			for _, bc := range cs {
+				env := st.newEnv(fr, nil)
+				for ai := range args {
+					env.vars[fmt.Sprintf("arg%d", ai)] = args[ai] // the call's arguments (receiver first)
+				}
+				// inside a loop with step clauses, prev(e) is the value at the start of the current round of the
+				// innermost such loop around the call
+				best := 0
+				for hdr, li := range e.loopsOf(fr.fn) {
+					if le := fr.loopsSeen[hdr]; le != nil && le.head != nil && li.body[fr.block] && (best == 0 || len(li.body) < best) {
+						best = len(li.body)
+						env.prev = le.head
+						env.lentry = le.entry
+					}
+				}
+				t := env.evalBool(bc.E)
+				st.assumeAll(env.defs)
+				st.u.addObl(st, "assert", "before "+key+"/"+clauseName(bc), pos, t, false)
+				st.assume(t)
+			}
+		}
+	}
 }
 
 func ifaceMethodKey(c *ssa.CallCommon) string {
